@@ -8,7 +8,7 @@ wrong place. The two SFTP findings of the unchanged tree are passed in VERIF_DEV
 """
 import os, subprocess, sys, concurrent.futures as cf
 
-IGNORE = "C16:sftp:prune:temp-left,C16:sftp:prune:unreferenced-left:uncompressed"
+IGNORE = "C16:sftp:prune:temp-left,C16:sftp:prune:unreferenced-left:uncompressed,C16:local:verify:aborted-incomplete"
 
 def lines(f, a, b):
     src = open("/repo/" + f).read().split("\n")
@@ -51,7 +51,7 @@ MUTANTS = [
     M("S3-s3-prune-by-listed-key-any-format",
       ("s3.go", 184, 186, "s.RemoveChunk(id)", "s.client.RemoveObject(s.bucket, object.Key)"),
       ("s3.go", 211, 215, "if !strings.HasSuffix(name, CompressedChunkExt) {", "if false {")),
-    M("S4-s3-idfromname-no-dir-check", ("s3.go", 221, 225, "if !strings.HasPrefix(sid, idx) {", "if false {")),
+    M("S4-s3-idfromname-no-dir-check", ("s3.go", 221, 225, "if !strings.HasPrefix(sid, idx) {", "if false && !strings.HasPrefix(sid, idx) {")),
     M("S5-s3-prune-by-listed-key", ("s3.go", 184, 186, "s.RemoveChunk(id)", "s.client.RemoveObject(s.bucket, object.Key)")),
     M("S6-s3-prune-keep-test-inverted", ("s3.go", 183, 185, "; !ok {", "; ok {")),
     M("F1-sftp-prune-delete-on-parse-failure", ("sftp.go", 253, 258, "continue", "c.client.Remove(path); continue")),
@@ -59,9 +59,29 @@ MUTANTS = [
     M("F3-sftp-prune-keep-test-inverted", ("sftp.go", 259, 262, "; !ok {", "; ok {")),
 ]
 
+# Not mutants but the suggested repairs: with them the check must pass WITHOUT any ignored signature.
+REPAIR_TMP = """		if b := filepath.Base(path); len(b) > 64 {
+			ext := CompressedChunkExt
+			if c.opt.Uncompressed {
+				ext = UncompressedChunkExt
+			}
+			if _, e := ChunkIDFromString(b[:64]); e == nil && strings.HasPrefix(b[64:], ext) && len(b) > 64+len(ext) && strings.Trim(b[64+len(ext):], "0123456789") == "" {
+				_ = c.client.Remove(path) // abandoned temp file of StoreObject
+				continue
+			}
+		}
+"""
+REPAIRS = [
+    M("R-suggested-repairs",
+      ("sftp.go", 237, 239, "		if !strings.HasSuffix(path, CompressedChunkExt) { // Skip files without chunk extension\n			continue\n		}", REPAIR_TMP.rstrip("\n")),
+      ("sftp.go", 242, 245, "				return nil", "				continue"),
+      ("sftp.go", 247, 250, "				return nil", "				continue"),
+      ("local.go", 137, 139, "			return err", "			if os.IsNotExist(err) {\n				return nil\n			}\n			return err")),
+]
+
 def run(m):
     name, triples = m
-    env = dict(os.environ, VERIF_DEV_IGNORE=IGNORE, MUT_TAIL="12")
+    env = dict(os.environ, VERIF_DEV_IGNORE="" if name.startswith("R-") else IGNORE, MUT_TAIL="12")
     env.setdefault("VERIF_CHECKS", "500")
     r = subprocess.run(["/verif/tools/mutant", "C16", "quick"] + triples, env=env, capture_output=True, text=True)
     out = r.stdout + r.stderr
@@ -71,7 +91,7 @@ def run(m):
 
 if __name__ == "__main__":
     want = sys.argv[1:]
-    todo = [m for m in MUTANTS if not want or m[0] in want or m[0].split("-")[0] in want]
+    todo = [m for m in MUTANTS + REPAIRS if (not want and m not in REPAIRS) or m[0] in want or m[0].split("-")[0] in want]
     jobs = int(os.environ.get("MUT_JOBS", "2"))
     with cf.ThreadPoolExecutor(jobs) as ex:
         for name, verdict, sigs, out in ex.map(run, todo):
